@@ -66,6 +66,17 @@ pub fn apps() -> Vec<AppDef> {
         s.output_plugins = plugins;
         out.push(AppDef { name, spec: s, bases: vec![vq.clone()], fields: vec!["origin_vertex", "destination_vertex"] });
     }
+    // queries by edge with the route and the tree rendered (a query whose origin and destination are the same edge is answered
+    // without a search: no route, no tree)
+    for (name, plugins) in [
+        ("plain_edge", vec![json!({"type": "summary"}), json!({"type": "traversal", "route": "edge_id", "tree": "edge_id", "geometry_input_file": "$DIR/geometries.txt"})]),
+        ("plain_edge_tree_only", vec![json!({"type": "traversal", "tree": "json", "geometry_input_file": "$DIR/geometries.txt"})]),
+    ] {
+        let mut s = AppSpec::simple(net.clone());
+        s.orientation = "edge".into();
+        s.output_plugins = plugins;
+        out.push(AppDef { name, spec: s, bases: vec![json!({"origin_edge": 0, "destination_edge": 4}), json!({"origin_edge": 6})], fields: vec!["origin_edge", "destination_edge"] });
+    }
     // speed table model: state features can be overridden from the query
     let mut s = AppSpec::simple(net.clone());
     s.speed = Some((speeds.clone(), SpeedUnit::KilometersPerHour, Some(DistanceUnit::Meters), Some(TimeUnit::Seconds)));
@@ -296,7 +307,16 @@ fn special_queries(def: &AppDef) -> Vec<(String, Value, bool)> {
             v.push((format!("long_state_feature_name_{}", i), json!({"origin_vertex": 0, "destination_vertex": 4, "state_features": {k: {"distance_unit": "miles", "initial": 0.0}}}), false));
         }
     }
-    let _ = m;
+    if def.name.starts_with("plain_edge") {
+        for (i, e) in [0usize, 1, m - 1, m, 1000].into_iter().enumerate() {
+            // identical edges inside the network are a query that can be answered with nothing in it (see the known finding on
+            // identical vertices); whatever comes back, the call returns and echoes the request
+            v.push((format!("origin_edge_equals_destination_edge_at_{}", ["first", "second", "last", "one_past_end", "far_past_end"][i]), json!({"origin_edge": e, "destination_edge": e}), e >= m));
+        }
+        v.push(("origin_edge_one_past_end".into(), json!({"origin_edge": m, "destination_edge": 0}), true));
+        v.push(("destination_edge_one_past_end".into(), json!({"origin_edge": 0, "destination_edge": m}), true));
+        v.push(("adjacent_edges".into(), json!({"origin_edge": 0, "destination_edge": 1}), false));
+    }
     if def.name == "vertex_rtree" || def.name == "edge_rtree" || def.name == "load_balancer_haversine" {
         for (i, (x, y)) in [(181.0, 0.0), (0.0, 91.0), (-181.0, -91.0), (1e30, 0.0), (0.0, 50.0), (0.0, 1e39), (1e39, 0.0), (-1e300, 1e300), (f64::MAX, f64::MIN_POSITIVE)].iter().enumerate() {
             let mut q = def.bases[0].clone();
@@ -324,6 +344,7 @@ fn required_field(def: &AppDef, field: &str) -> bool {
     match def.name {
         "plain_vertex" | "plain_vertex_wkt" | "plain_vertex_wkb" | "plain_vertex_geo_json" | "plain_vertex_json" | "plain_vertex_uuid_first" | "plain_vertex_uuid_tree_only" | "speed_vertex" | "grid_search" | "inject_overwrite" | "inject_no_overwrite" | "ksp_single_via" | "yens_k1" | "energy_bev" => field == "origin_vertex",
         "vertex_rtree" | "edge_rtree" | "load_balancer_haversine" => field == "origin_x" || field == "origin_y",
+        "plain_edge" | "plain_edge_tree_only" => field == "origin_edge",
         _ => false,
     }
 }
